@@ -27,6 +27,10 @@ def run_link(ctx, replay=None, corpus_dirs=("C01", "C03")):
             if prop == "C11":
                 jobs.append(("close%d" % i, ["gen", "link-close", (n_exact + n_burst) // parts], ctx.seed * 1000 + 600 + i))
                 jobs.append(("forward%d" % i, ["gen", "link-forward", (n_exact + n_burst) // parts // 5], ctx.seed * 1000 + 650 + i))
+                # the forwarder at chunk granularity: stepped scripts replayed exactly against M_forward, and
+                # monitor scripts with chunk streams cancelled between any two polls
+                jobs.append(("fwdexact%d" % i, ["gen", "link-fwdexact", 120 if quick else 600], ctx.seed * 1000 + 660 + i))
+                jobs.append(("fwdchunks%d" % i, ["gen", "link-fwdchunks", 150 if quick else 1500], ctx.seed * 1000 + 670 + i))
                 if i == 0:
                     jobs.append(("closecancel", ["gen", "link-closecancel", 120 if quick else 4000], ctx.seed * 1000 + 680))
                 continue
@@ -37,7 +41,9 @@ def run_link(ctx, replay=None, corpus_dirs=("C01", "C03")):
                 jobs.append(("forward%d" % i, ["gen", "link-forward", (n_exact // parts) // 4], ctx.seed * 1000 + 650 + i))
     total_traces, nontrivial, hashes, samples = 0, 0, set(), []
     stats = {"closes": 0, "receiver_drops": 0, "sender_drops": 0, "closed_send_errors": 0, "eos_seen": 0, "replay_ok": 0, "replay_mismatch": 0, "pred_fail": 0, "multi_frame_msgs": 0, "cancels": 0, "chunk_streams": 0,
-             "port_batches": 0, "trysends": 0, "credit_frames": 0}
+             "port_batches": 0, "trysends": 0, "credit_frames": 0,
+             "forwarders": 0, "forward_ok": 0, "forward_err": 0, "forwarder_exact_replays": 0,
+             "forwarder_upstream_cancels": 0}
     mismatches, fails = [], []
     for name, args, seed in jobs:
         rc, err, trace = ctx.harness("mux", args, out_path=os.path.join(ctx.workdir, "%s.trace" % name), seed=seed)
@@ -83,6 +89,14 @@ def run_link(ctx, replay=None, corpus_dirs=("C01", "C03")):
             stats["chunk_streams"] += sum(1 for l in tl if l.startswith("op chunks"))
             stats["port_batches"] += sum(1 for l in tl if l.startswith("op pconnect"))
             stats["trysends"] += sum(1 for l in tl if l.startswith("op trysend"))
+            nfw = sum(1 for l in tl if l.startswith("op forward"))
+            if nfw:
+                stats["forwarders"] += nfw
+                stats["forward_ok"] += sum(1 for l in tl if re.match(r"ret f ok", l))
+                stats["forward_err"] += sum(1 for l in tl if re.match(r"ret f err", l))
+                if any(l.startswith("op mode exact") for l in tl):
+                    stats["forwarder_exact_replays"] += 1
+                stats["forwarder_upstream_cancels"] += sum(1 for l in tl if l.startswith("cancelled s") or re.match(r"ret s\d+ dropped", l))
             stats["credit_frames"] += sum(1 for l in tl if l.startswith("tx ") and len(l.split()) > 2 and l.split()[2].startswith("09"))
             if h not in hashes and (multi or canc or (prop == "C11" and closeish)):
                 hashes.add(h)
